@@ -59,78 +59,79 @@ def substArgs (args : List Str) (line : Str) : Str :=
 
 /-! ### pass 0 : macro expansion -/
 
-mutual
+/-- `macro_expand` : the segments the substituted body parses to -/
+def macroExpand (fs : Fs) (macros : List (Str × List (Nat × Str)))
+    (st : PState) (ln : Nat) (name : Str) (ops : List IOp) : Out (PState × List Segment) :=
+  match alookup name macros with
+  | none => lineErr ln "undefined-macro"
+  | some body =>
+    let body := if ops.isEmpty then body
+      else body.map fun (n, l) => (n, substArgs (ops.map iopText) l)
+    let inner : PState :=
+      { ctx := st.ctx, segments := [{ items := [], t := .code, address := st.lastSeg.address }],
+        macros := st.macros, macroName := st.macroName, messages := st.messages }
+    match parseIter fs [] [] inner .newLine body with
+    | .ok (inner, _) =>
+      .ok ({ st with ctx := inner.ctx, macros := inner.macros, macroName := inner.macroName,
+                     messages := inner.messages },
+           inner.segments.filter fun s => !s.items.isEmpty)
+    | .error e => .error e
+    | .panic s => .panic s
+    | .oof => .oof
+
+/-- the loop over the second and following segments of an expansion; `inner` expands the items
+    of a segment one macro-nesting level deeper -/
+def pass0Segs (inner : PState → List (Nat × Item) → Out PState) : PState → List Segment → Out PState
+  | st, [] => .ok st
+  | st, s :: more =>
+    if s.t = .code then
+      match inner (st.addSegment { items := [], t := s.t, address := s.address }) s.items with
+      | .ok st => pass0Segs inner st more
+      | x => x
+    else pass0Segs inner (st.addSegment s) more
+
 /-- `pass0_internal` over the items of one segment -/
-def pass0Items (fs : Fs) (macros : List (Str × List (Nat × Str))) :
-    Nat → PState → List (Nat × Item) → Out PState
-  | 0, _, _ => .oof
-  | _ + 1, st, [] => .ok st
-  | f + 1, st, (ln, it) :: rest =>
+def pass0Items (fs : Fs) (macros : List (Str × List (Nat × Str)))
+    (inner : PState → List (Nat × Item) → Out PState) : PState → List (Nat × Item) → Out PState
+  | st, [] => .ok st
+  | st, (ln, it) :: rest =>
     match it with
     | .instruction (.custom name) ops =>
-      match macroExpand fs macros f st ln name ops with
+      match macroExpand fs macros st ln name ops with
       | .ok (st, segs) =>
         match segs with
-        | [] => pass0Items fs macros f st rest
+        | [] => pass0Items fs macros inner st rest
         | s0 :: more =>
           let cur := st.lastSeg
           let st := if s0.address ≠ cur.address ∨ s0.t ≠ cur.t
             then st.addSegment { items := [], t := s0.t, address := s0.address } else st
-          match pass0Items fs macros f st s0.items with
+          match inner st s0.items with
           | .ok st =>
-            match pass0Segs fs macros f st more with
-            | .ok st => pass0Items fs macros f st rest
+            match pass0Segs inner st more with
+            | .ok st => pass0Items fs macros inner st rest
             | x => x
           | x => x
       | .error e => .error e
       | .panic s => .panic s
       | .oof => .oof
-    | _ => pass0Items fs macros f (st.pushToLast ln it) rest
+    | _ => pass0Items fs macros inner (st.pushToLast ln it) rest
 
-/-- the loop over the second and following segments of an expansion -/
-def pass0Segs (fs : Fs) (macros : List (Str × List (Nat × Str))) :
-    Nat → PState → List Segment → Out PState
-  | 0, _, _ => .oof
-  | _ + 1, st, [] => .ok st
-  | f + 1, st, s :: more =>
-    if s.t = .code then
-      match pass0Items fs macros f (st.addSegment { items := [], t := s.t, address := s.address }) s.items with
-      | .ok st => pass0Segs fs macros f st more
-      | x => x
-    else pass0Segs fs macros f (st.addSegment s) more
+/-- macro nesting: level 0 gives up (`oof`; the Rust code recurses until the stack overflows) -/
+def pass0At (fs : Fs) (macros : List (Str × List (Nat × Str))) : Nat → PState → List (Nat × Item) → Out PState
+  | 0 => fun _ _ => .oof
+  | d + 1 => pass0Items fs macros (pass0At fs macros d)
 
-/-- `macro_expand` : the segments the substituted body parses to -/
-def macroExpand (fs : Fs) (macros : List (Str × List (Nat × Str))) :
-    Nat → PState → Nat → Str → List IOp → Out (PState × List Segment)
-  | 0, _, _, _, _ => .oof
-  | f + 1, st, ln, name, ops =>
-    match alookup name macros with
-    | none => lineErr ln "undefined-macro"
-    | some body =>
-      let body := if ops.isEmpty then body
-        else body.map fun (n, l) => (n, substArgs (ops.map iopText) l)
-      let inner : PState :=
-        { ctx := st.ctx, segments := [{ items := [], t := .code, address := st.lastSeg.address }],
-          macros := st.macros, macroName := st.macroName, messages := st.messages }
-      match parseIter fs [] [] f inner .newLine body with
-      | .ok (inner, _) =>
-        .ok ({ st with ctx := inner.ctx, macros := inner.macros, macroName := inner.macroName,
-                       messages := inner.messages },
-             inner.segments.filter fun s => !s.items.isEmpty)
-      | .error e => .error e
-      | .panic s => .panic s
-      | .oof => .oof
-end
+def macroDepth : Nat := 64
 
 /-- `build_pass_0` -/
-def pass0 (fs : Fs) (fuel : Nat) (parsed : ParseResult) (ctx : Ctx) : Out PState :=
+def pass0 (fs : Fs) (parsed : ParseResult) (ctx : Ctx) : Out PState :=
   let st0 : PState := { ctx := ctx, segments := [], messages := parsed.messages }
   let rec go : List Segment → PState → Out PState
     | [], st => .ok st
     | s :: more, st =>
       match s.t with
       | .code =>
-        match pass0Items fs parsed.macros fuel (st.addSegment { items := [], t := s.t, address := s.address }) s.items with
+        match pass0At fs parsed.macros macroDepth (st.addSegment { items := [], t := s.t, address := s.address }) s.items with
         | .ok st => go more st
         | x => x
       | _ => go more (st.addSegment s)
@@ -384,8 +385,8 @@ structure BuildResult where
 def initCtx : Ctx := { device := defaultDevice }
 
 /-- `build_from_parsed` -/
-def buildFromParsed (fs : Fs) (fuel : Nat) (st : PState) : Out BuildResult :=
-  match pass0 fs fuel st.asParseResult st.ctx with
+def buildFromParsed (fs : Fs) (st : PState) : Out BuildResult :=
+  match pass0 fs st.asParseResult st.ctx with
   | .ok p0 =>
     match pass1 (p0.segments.filter fun s => !s.items.isEmpty) p0.messages p0.ctx with
     | .ok p1 =>
@@ -408,14 +409,10 @@ def buildFromParsed (fs : Fs) (fuel : Nat) (st : PState) : Out BuildResult :=
   | .panic p => .panic p
   | .oof => .oof
 
-/-- fuel for pass 0: macro nesting is bounded only by fuel in the model (the Rust code recurses
-    without bound); the correspondence runs use bodies far smaller than this -/
-def pass0Fuel (src : Str) : Nat := 64 * (src.length + 16)
-
 /-- `build_str` -/
 def buildStr (fs : Fs) (src : Str) : Out BuildResult :=
   match parseStr fs src initCtx with
-  | .ok st => buildFromParsed fs (pass0Fuel src) st
+  | .ok st => buildFromParsed fs st
   | .error e => .error e
   | .panic p => .panic p
   | .oof => .oof
@@ -423,8 +420,7 @@ def buildStr (fs : Fs) (src : Str) : Out BuildResult :=
 /-- `build_file` -/
 def buildFile (fs : Fs) (path : Str) (incs : List Str) : Out BuildResult :=
   match parseFile fs path incs initCtx with
-  | .ok st =>
-    buildFromParsed fs (64 * (fs.files.foldl (fun a p => a + p.2.length) 0 + 16)) st
+  | .ok st => buildFromParsed fs st
   | .error e => .error e
   | .panic p => .panic p
   | .oof => .oof
